@@ -625,7 +625,8 @@ def want_is_layoutable(wlines):
         if not w.strip():
             return False
     first = wlines[0].lstrip()
-    if first.startswith(('>>>', '...')):
+    # (three dots directly followed by text are text: only '...' alone or followed by a blank is a prompt)
+    if first.startswith('>>>') or first == '...' or first.startswith('... '):
         return False
     for w in wlines:
         s = w.strip()
